@@ -22,6 +22,8 @@ type PocketNode struct {
 	EvidenceStore   *CacheStorage
 	SessionStore    *CacheStorage
 	DoCacheInitOnce sync.Once
+	// RelayMu serializes "validate the relay against the stored evidence, then store its proof"
+	RelayMu sync.Mutex
 }
 
 func (n *PocketNode) GetAddress() sdk.Address {
